@@ -25,6 +25,13 @@ func (e *c12Exec) Outcome() string { return fmt.Sprintf("err=%v", e.Err != nil) 
 func (e *c12Exec) Check(o *mc.Outcome) []Viol {
 	e.Finish()
 	vs := endViolations("C12", o)
+	// Go's runtime aborts the whole process ("fatal error: concurrent map writes") when it notices unsynchronised
+	// map access: an unordered pair of accesses to one map object is a crash waiting for the right schedule
+	for k := range o.Races {
+		if strings.Contains(k, "@map:") {
+			vs = append(vs, Viol{"C12|concurrent-map-access|" + k, "unsynchronised access to one map from two goroutines (the runtime kills the process when it notices): " + k + " input " + fmt.Sprintf("%q", e.d.Doc)})
+		}
+	}
 	if o.End() == "complete" && strings.TrimSpace(e.d.Doc) == "" && (e.Err != nil || e.W.buf.Len() > 0 || len(e.Rows) > 0) {
 		vs = append(vs, Viol{"C12|blank-input-not-empty-nil|massive|" + e.d.Op, fmt.Sprintf("input %q: out=%q err=%v", e.d.Doc, e.W.buf.String(), e.Err)})
 	}
@@ -33,6 +40,9 @@ func (e *c12Exec) Check(o *mc.Outcome) []Viol {
 
 func c12Scenario(op, in string, bound int) *Scenario {
 	d := NewDrv(op, in)
+	if op == "verify" {
+		d.Pre = map[string]byte{"a/b": 'd', "a/x": 'd'} // the roots the block alphabet uses exist: verification walks them
+	}
 	return &Scenario{Name: fmt.Sprintf("c12/%s/%q", op, in), Prop: "C12", Workers: w2, Bound: bound,
 		New: func() Exec { return &c12Exec{DrvRun: d.New()} }}
 }
@@ -95,9 +105,13 @@ func init() {
 					doc += blocks[x]
 				}
 				c.Inc("block_sequence_docs")
-				for _, op := range []string{"out-text", "walk", "out-dry"} {
+				for oi, op := range []string{"out-text", "walk", "verify", "out-dry", "mkdir"} {
 					sc := c12Scenario(op, doc, 0)
-					for _, pol := range []int{0, 1, 2} {
+					pols := []int{0, 1, 2}
+					if oi >= 3 || (L == maxB && oi >= 1) {
+						pols = pols[:1]
+					}
+					for _, pol := range pols {
 						e.explore(sc, pol)
 					}
 				}
